@@ -913,7 +913,7 @@ func (r *envelopingReader) prepareNext() error {
 			r.rw.reportError(err)
 			return err
 		}
-		r.current = io.LimitReader(r.r, int64(env.length))
+		r.current = &exactLengthReader{r: io.LimitReader(r.r, int64(env.length)), rw: r.rw, remaining: int64(env.length)}
 	}
 
 	if r.rw.op.serverEnveloper == nil {
@@ -1823,6 +1823,25 @@ func (l *limitWriter) Write(data []byte) (n int, err error) {
 		return 0, err
 	}
 	return l.buf.Write(data)
+}
+
+// exactLengthReader reads a message whose length was announced by an envelope. If the
+// underlying data ends before that many bytes have been read, the message was cut
+// short: that is reported as an error instead of a normal end of the message.
+type exactLengthReader struct {
+	r         io.Reader
+	rw        *responseWriter
+	remaining int64
+}
+
+func (e *exactLengthReader) Read(data []byte) (n int, err error) {
+	n, err = e.r.Read(data)
+	e.remaining -= int64(n)
+	if errors.Is(err, io.EOF) && e.remaining > 0 {
+		err = io.ErrUnexpectedEOF
+		e.rw.reportError(malformedRequestError(fmt.Errorf("request message is missing its final %d bytes: %w", e.remaining, err)))
+	}
+	return n, err
 }
 
 type hardLimitReader struct {
